@@ -176,7 +176,7 @@ func (r Relation) CallAll(_ context.Context, v Value, sb SetBuilder) error {
 
 func (r Relation) unionSetSubsetBucket() string {
 	// sort to ensure that identity of Relations are the same no matter the order of names.
-	return r.attrs.GetSorted().String()
+	return r.attrs.GetSorted().bucketKey()
 }
 
 var relationKind = registerKind(211, reflect.TypeOf(Relation{}))
